@@ -88,6 +88,29 @@ def check_eval(prog, report):
               and text(loop[0].iter).replace(
                   ' ', '') == 'range(len(self.pw_gamma))')
     ret = 'returnnp.select(condlist,pw_eval)' in src
+    # any other return that picks one piece for the whole argument must have
+    # checked every entry of the argument
+    for n in ast.walk(fn):
+        if isinstance(n, ast.If):
+            for m in n.body:
+                if isinstance(m, ast.Return) and isinstance(
+                        m.value, ast.Call) and isinstance(
+                            m.value.func, ast.Subscript) and text(
+                                m.value.func.value) == 'self.pw_gamma':
+                    if text(n.test).replace(' ', '') == \
+                            'len(self.pw_gamma)==1':
+                        continue
+                    whole = 'np.all(' in text(n.test) or '.all()' in text(
+                        n.test)
+                    report.check(
+                        whole, 'R-pieces', 'eval single-piece shortcut',
+                        fi.where(n),
+                        'a shortcut that evaluates the whole argument '
+                        'through one piece must test every entry of the '
+                        'argument (np.all), not e.g. only the first and the '
+                        'last; found `%s`' % text(n.test)[:70],
+                        construct='PiecewiseParametrization.eval: shortcut '
+                        'through one piece')
     report.check(single and ok and ret, 'R-pieces', 'eval piece selection',
                  fi.where(),
                  'evaluating the whole curve uses piece i on the closed '
@@ -159,13 +182,35 @@ def check_slabcount(prog, report):
     from .props.c05 import _int_eval
     fi = prog.func(M, 'MeshParametrized.__init__')
     guard = None
+
+    def refines(m):
+        return refine_call(m) or (isinstance(m, ast.Call) and isinstance(
+            m.func, ast.Attribute) and m.func.attr in (
+                'uniform_refine_space', 'uniform_refine', 'refine'))
     for n in fi.node.body:
-        if isinstance(n, ast.If) and 'self.glue_space' in text(n.test) and \
-                any(refine_call(m) for m in ast.walk(n)):
+        if isinstance(n, (ast.If, ast.While)) and 'self.glue_space' in \
+                text(n.test) and any(refines(m) for m in ast.walk(n)):
             guard = n
     if guard is None:
         raise AnalysisError('%s: minimum-elements guard not found' %
                             fi.where())
+    # every quantity that decides how much is refined must be per slab
+    deciders = [guard.test] + [m.test for m in ast.walk(guard)
+                               if isinstance(m, (ast.While, ast.If))
+                               and m is not guard]
+    dn = {text(m) for d in deciders for m in ast.walk(d)
+          if isinstance(m, (ast.Attribute, ast.Name))}
+    forb = sorted(x for x in dn if x in (
+        'self.roots', 'initial_time_mesh', 'self.leaf_elements',
+        'self.N_elements', 'self.vertices', 'N_t'))
+    if forb:
+        report.violation(
+            'R-slabcount', 'guard depends on the slab size', fi.where(guard),
+            'a quantity that decides how far the closed curve is '
+            'pre-refined counts over all time slabs (%s); with several '
+            'initial slabs a slab keeps fewer than three elements' % forb,
+            construct='MeshParametrized: guard dependence')
+        return
     t = guard.test
     if not (isinstance(t, ast.BoolOp) and isinstance(t.op, ast.And) and len(
             t.values) == 2):
